@@ -355,7 +355,7 @@ class Run:
         from stabilize.queue.messages import SignalStage
 
         sid = None
-        for r in self.raw.execute("SELECT id FROM stage_executions WHERE ref_id = ?", (stage_ref,)):
+        for r in self.raw.execute("SELECT id FROM stage_executions WHERE ref_id = ? AND execution_id = ?", (stage_ref, self.wf_id)):
             sid = r["id"]
         q = self.quiet
         self.quiet = True
@@ -409,7 +409,7 @@ class Run:
         from stabilize import Orchestrator
 
         sid = None
-        for r in self.raw.execute("SELECT id FROM stage_executions WHERE ref_id = ?", (stage_ref,)):
+        for r in self.raw.execute("SELECT id FROM stage_executions WHERE ref_id = ? AND execution_id = ?", (stage_ref, self.wf_id)):
             sid = r["id"]
         q = self.quiet
         self.quiet = True
@@ -421,7 +421,7 @@ class Run:
         from stabilize.queue.messages import StartStage
 
         sid = None
-        for r in self.raw.execute("SELECT id FROM stage_executions WHERE ref_id = ?", (stage_ref,)):
+        for r in self.raw.execute("SELECT id FROM stage_executions WHERE ref_id = ? AND execution_id = ?", (stage_ref, self.wf_id)):
             sid = r["id"]
         q = self.quiet
         self.quiet = True
